@@ -147,14 +147,6 @@ GAS_VELOCITY_COLS = {"v_mean_m_per_s": 2e-5, "v_from_m_per_s": 2e-5, "v_to_m_per
 def compare_results(ra, rb, rtol=1e-9, atol=1e-9, skip_cols=(), colmap=None, gas=False):
     """Compare two results_by_id dicts on the common ids.  Returns list of (id, col, a, b)."""
     diffs = []
-    # the per-element mean of lambda is extracted through differences of a running sum over the whole table: a pipe at
-    # (numerically) zero flow carries lambda = 64/Re ~ 1e9 and leaves a rounding error of ~1e-16 * 1e9 in its neighbours
-    lam_max = 0.0
-    for r in (ra, rb):
-        for v in r.values():
-            if v is not None and "lambda" in v and np.isfinite(v["lambda"]):
-                lam_max = max(lam_max, abs(v["lambda"]))
-    lam_atol = 4e-15 * lam_max
     for eid in ra:
         if eid not in rb:
             continue
@@ -174,8 +166,6 @@ def compare_results(ra, rb, rtol=1e-9, atol=1e-9, skip_cols=(), colmap=None, gas
                 continue
             rt = max(rtol, LAGGING_COLS.get(c, 0.0), GAS_VELOCITY_COLS.get(c, 0.0) if gas else 0.0)
             at = max(atol, 1e-7) if c in GAS_VELOCITY_COLS else atol
-            if c == "lambda":
-                at = max(at, lam_atol)
             if np.isnan(va) != np.isnan(vb) or abs(va - vb) > at + rt * max(abs(va), abs(vb)):
                 diffs.append((eid, c, va, vb))
     return diffs
